@@ -4,7 +4,7 @@ CONSTANTS
  Keys = {"k1","k2"}
  Vals = {"", "0", "1", "9223372036854775807", "-9223372036854775808", "x"}
  OptKeys = {"k1","k2"}
- OptVals = {"", "0", "1", "9223372036854775807", "-9223372036854775808", "x"}
+ OptVals = {"1", "9223372036854775807", "x"}
  Deltas = {"1", "-1", "2", "9223372036854775807", "-9223372036854775808", "-9223372036854775807", "x", ""}
  Shorts = {"@S1","@S2"}
  MaxNow = 3
